@@ -131,6 +131,10 @@ def gen(rng, tier):
             c["f2"] = shuffled(rng, a)
             c["t2"] = shuffled(rng, b)
         cases.append(c)
+    # accumulated costs far beyond 16 bits (constant-cost Replace cells keep it fast)
+    big = [[0] * 700 for _ in range(60)]
+    cases.append({"f": big, "t": [1] * 60, "opts": {}})
+    cases.append({"f": [2] * 50, "t": [[5] * 900 for _ in range(50)] + [3], "opts": {}})
     # CSV tables: the real csv loader builds ListNode(rows) of ListNode(cells) of StringNodes WITHOUT the list
     # options; at the level of edits this is the JSON diff of a list of lists of strings under default options
     cells = ["1", "2", "a", "b", "ab", "abc", "", "x y", "10"]
